@@ -175,9 +175,6 @@ func guardReports(f *ssa.Function, d *ssa.Defer, target *ssa.Function) (bool, st
 		return true, ""
 	}
 	mc, isClosure := d.Call.Value.(*ssa.MakeClosure)
-	if !isClosure {
-		return true, "" // a method/function guard: decided by the exit rule
-	}
 	exits := false
 	eachCall(target, func(cl ssa.CallInstruction) {
 		if exitCallKind(cl) != "" {
@@ -200,6 +197,28 @@ func guardReports(f *ssa.Function, d *ssa.Defer, target *ssa.Function) (bool, st
 	}
 	cell := ld.X
 	stored := false
+	if !isClosure {
+		// `defer recoverInto(&err)`: the named function is deferred directly (so its
+		// recover() works) and receives the address of the error result
+		for k, a := range d.Call.Args {
+			if a != cell || k >= len(target.Params) {
+				continue
+			}
+			prm := target.Params[k]
+			if prm.Referrers() == nil {
+				continue
+			}
+			for _, r := range *prm.Referrers() {
+				if st, ok := r.(*ssa.Store); ok && st.Addr == ssa.Value(prm) && !isNilConst(st.Val) {
+					stored = true
+				}
+			}
+		}
+		if !stored {
+			return false, "the deferred function recovers but is not given (or never assigns through) the address of the function's named error result"
+		}
+		return true, ""
+	}
 	for k, b := range mc.Bindings {
 		if b != cell || k >= len(target.FreeVars) {
 			continue
